@@ -130,14 +130,20 @@ class RegionGeom:
             + 0.5 * b * u4
         )
 
-        psi = np.arccos(r / np.sqrt(-(q**3)))
+        # r / sqrt(-q^3) lies in [-1, 0] for u4 in [0, 1]. Guard the end points against
+        # rounding: the ratio must not leave the domain of arccos and the root that
+        # lies in the sampled range (v3) must map u4 = 0, 1 onto the range limits.
+        cospsi = r / np.sqrt(-(q**3))
+        psi = np.arccos(np.clip(cospsi, -1.0, 1.0))
         v1 = 2 * np.sqrt(-q) * np.cos(psi / 3)
         v2 = 2 * np.sqrt(-q) * np.cos((psi + 2 * np.pi) / 3)
         v3 = 2 * np.sqrt(-q) * np.cos((psi + 4 * np.pi) / 3)
+        v3 = np.clip(v3, self.minLOSpathLen, self.maxLOSpathLen)
 
         dscr = q * q * q + r * r
 
-        dmsk = dscr <= 0
+        # Three real roots when |cospsi| <= 1 (up to rounding of the discriminant)
+        dmsk = (dscr <= 0) | (np.abs(cospsi) <= 1.0 + 1e-12)
         v1_msk = (v1 > 0) & (v1 >= self.minLOSpathLen) & (v1 <= self.maxLOSpathLen)
         v2_msk = (v2 > 0) & (v2 >= self.minLOSpathLen) & (v2 <= self.maxLOSpathLen)
         v3_msk = (v3 > 0) & (v3 >= self.minLOSpathLen) & (v3 <= self.maxLOSpathLen)
